@@ -16,211 +16,628 @@ R = Rules(
         "key; the reply is recorded (only for known keys) before it is transmitted; nobody else writes the table. "
         "Timing around the 247 s boundary and run-time equality of endpoint objects are not decided."
     ),
-    rule_text="key tracing through single-assignment locals, dominance/guard rules, who-may-write over the whole package",
+    rule_text=(
+        "symbolic execution of the two de-duplication functions per state of the table entry (unknown / known without "
+        "reply / known with reply) and message type, every spelling of a dictionary access and of the expiry callable "
+        "interpreted by its meaning (rules/_kit_c04.py); path model of dispatch_message and _send_initially; key "
+        "tracing through locals; alias- and lambda-aware who-may-write over the whole package"
+    ),
 )
 
 MM = "messagemanager.MessageManager."
 FIELD = "self._recent_messages"
 
 
-def _key_ok(fi, e, m):
-    e = resolve_local(fi.node, e)
-    b = match("($a, $b)", e)
-    return b is not None and chain(b["a"]) == m + ".remote" and chain(b["b"]) == m + ".mid"
+# ---------------------------------------------------------------------------
+# shared helpers
+
+
+def _assigned(fnode, name):
+    """The unique value bound to local `name` (also as an element of `a, b = x, y` or of a chained
+    `k = (a, b) = (x, y)`), else None."""
+    vals = []
+    for n in walk_no_nested(fnode):
+        if isinstance(n, ast.Assign):
+            for t in n.targets:
+                if isinstance(t, ast.Name) and t.id == name:
+                    vals.append(n.value)
+                elif isinstance(t, (ast.Tuple, ast.List)) and isinstance(n.value, (ast.Tuple, ast.List)) and len(t.elts) == len(n.value.elts):
+                    for x, v in zip(t.elts, n.value.elts):
+                        if isinstance(x, ast.Name) and x.id == name and not isinstance(v, ast.Starred):
+                            vals.append(v)
+        elif isinstance(n, ast.NamedExpr) and n.target.id == name:
+            vals.append(n.value)
+    if len(vals) == 1 and len(writes_to_name(fnode, name)) == 1:
+        return vals[0]
+    return None
+
+
+def _resolve(fnode, e, depth=4):
+    """resolve_local, also through tuple-unpacking assignments and walrus targets"""
+    while depth and isinstance(e, ast.Name):
+        v = _assigned(fnode, e.id)
+        if v is None:
+            break
+        e = v
+        depth -= 1
+    return e
+
+
+def _deep_resolve(fnode, e, depth=4):
+    """e with single-assignment locals that merely name another name / attribute chain / tuple replaced
+    by what they stand for (the engine's copy propagation does this for most code; this covers the rest)."""
+    import copy
+
+    class T(ast.NodeTransformer):
+        def __init__(s, d):
+            s.d = d
+
+        def visit_Name(s, n):
+            if isinstance(n.ctx, ast.Load) and s.d > 0:
+                v = _assigned(fnode, n.id)
+                if v is not None and isinstance(v, (ast.Name, ast.Attribute, ast.Tuple)):
+                    return T(s.d - 1).visit(copy.deepcopy(v))
+            return n
+
+        def visit_Lambda(s, n):
+            return n
+
+    return T(depth).visit(copy.deepcopy(e))
+
+
+def _enclosing_binding(fi, use, name):
+    """If `name` at `use` is a parameter of a lambda / nested def enclosing `use` inside fi:
+    -> ("default", expr) | ("param", None); else None."""
+    parent = {}
+    for p in ast.walk(fi.node):
+        for ch in ast.iter_child_nodes(p):
+            parent[id(ch)] = p
+    q = parent.get(id(use))
+    while q is not None and q is not fi.node:
+        if isinstance(q, (ast.Lambda, ast.FunctionDef, ast.AsyncFunctionDef)):
+            a = q.args
+            names = [x.arg for x in a.posonlyargs + a.args]
+            if name in names:
+                i = names.index(name)
+                k = i - (len(names) - len(a.defaults))
+                return ("default", a.defaults[k]) if k >= 0 else ("param", None)
+            for x, d in zip(a.kwonlyargs, a.kw_defaults):
+                if x.arg == name:
+                    return ("default", d) if d is not None else ("param", None)
+        q = parent.get(id(q))
+    return None
+
+
+def _key_ok(fi, e, m, use=None):
+    """Does e denote (m.remote, m.mid)?  Locals are followed (also the default-argument binding of an enclosing
+    lambda / nested def); -> True / False / None (bound by the caller of a callback: decided by C04.c)."""
+    if isinstance(e, ast.Name) and use is not None:
+        b = _enclosing_binding(fi, use, e.id)
+        if b is not None:
+            if b[0] == "param":
+                return None
+            e = b[1]
+    e = _deep_resolve(fi.node, _resolve(fi.node, e))
+    return isinstance(e, ast.Tuple) and len(e.elts) == 2 and chain(e.elts[0]) == m + ".remote" and chain(e.elts[1]) == m + ".mid"
 
 
 def _uses(fi):
-    out = []
-    for n in ast.walk(fi.node):
-        if isinstance(n, ast.Subscript) and chain(n.value) == FIELD:
-            out.append((n, n.slice))
-        elif isinstance(n, ast.Call) and isinstance(n.func, ast.Attribute) and chain(n.func.value) == FIELD and n.func.attr in ("pop", "get", "setdefault") and n.args:
-            out.append((n, n.args[0]))
-        elif isinstance(n, ast.Compare) and len(n.ops) == 1 and isinstance(n.ops[0], (ast.In, ast.NotIn)) and chain(n.comparators[0]) == FIELD:
-            out.append((n, n.left))
-        elif match("functools.partial(self._recent_messages.pop, $k, $*r)", n) is not None:
-            out.append((n, n.args[1]))
-    return out
+    """[(node, key expr, kind)] of every keyed access to the table in fi, [other references]"""
+    from ._kit_c04 import table_uses
+
+    return table_uses(fi.node, FIELD, lambda x: _resolve(fi.node, x))
+
+
+class _Agg:
+    """Obligations met on several symbolic runs are reported once per (obligation, construct)."""
+
+    def __init__(self, ctx, fi):
+        self.ctx = ctx
+        self.fi = fi
+        self.items = {}
+        self.order = []
+
+    def ob(self, desc, ok, node, detail=None, construct=None):
+        k = (desc, id(node), construct)
+        if k not in self.items:
+            self.items[k] = [desc, True, node, None, construct]
+            self.order.append(k)
+        it = self.items[k]
+        if not ok and it[1]:
+            it[1] = False
+            it[3] = detail
+        return ok
+
+    def flush(self):
+        for k in self.order:
+            desc, ok, node, detail, construct = self.items[k]
+            self.ctx.ob(desc, ok, self.fi, node, detail=detail, construct=construct)
 
 
 @R.clause("C04.a", "both de-duplication functions key _recent_messages by (message.remote, message.mid)")
 def a(ctx):
+    # Every reference to the table in the two functions is classified by what it does (lookup: d[k], d.get(k..),
+    # k in d, k in d.keys(), d.__contains__(k); insert: d[k] = v, d.setdefault(k..); remove: d.pop(k..), del d[k],
+    # the method value d.pop handed on together with its key); the key expression of each is traced through
+    # locals and compared with (message.remote, message.mid).  Floors are per kind of access, not per spelling.
     total = 0
-    for name in ("_deduplicate_message", "_store_response_for_duplicates"):
-        fi = ctx.prog.func(MM + name)
+    kinds_seen = {}
+    rec = _recorder(ctx.prog)[0]
+    for fi in (ctx.prog.func(MM + "_deduplicate_message"), rec):
+        name = fi.name
         m = params(fi)[0]
-        uses = _uses(fi)
-        ctx.floor("uses of _recent_messages in %s" % name, len(uses), 2)
-        for node, key in uses:
+        keyed, other = _uses(fi)
+        ctx.need(not other, "%s refers to _recent_messages other than by key: %s" % (name, [stmt_text(o, 50) for o in other]))
+        ctx.floor("keyed accesses to _recent_messages in %s" % name, len(keyed), 2)
+        for node, key, kind in keyed:
+            ok = _key_ok(fi, key, m, use=node)
+            if ok is None:
+                ctx.note("%s: key of `%s` is bound by the caller of the callback (decided in C04.c)" % (name, stmt_text(node, 50)))
+                continue
             total += 1
-            ctx.ob("%s addresses _recent_messages by (message.remote, message.mid)" % name, _key_ok(fi, key, m) and not writes_to_name(fi.node, m), fi, node,
-                   detail="key = %s" % stmt_text(resolve_local(fi.node, key)))
-    ctx.floor("key uses", total, 6)
+            kinds_seen.setdefault(name, set()).add(kind)
+            ctx.ob("%s addresses _recent_messages by (message.remote, message.mid)" % name, ok and not writes_to_name(fi.node, m), fi, node,
+                   detail="key = %s" % stmt_text(_deep_resolve(fi.node, _resolve(fi.node, key))))
+    ctx.need({"lookup", "insert"} <= kinds_seen.get("_deduplicate_message", set()), "_deduplicate_message: no keyed lookup and insertion found")
+    ctx.need("insert" in kinds_seen.get(rec.name, set()), "%s: no keyed insertion found" % rec.name)
+    ctx.floor("key uses", total, 4)
+
+
+_EFFECT_FREE_CALLS = {"len", "isinstance", "str", "repr", "bool", "id", "type", "int", "tuple", "hash"}
+
+
+def _has_effect(astnode, ignore=()):
+    """Does evaluating this statement / test do anything beyond reading and logging?"""
+    for n in walk_no_nested(astnode):
+        if isinstance(n, ast.Call):
+            if n in ignore or is_log_call(n) or (chain(n.func) or "") in _EFFECT_FREE_CALLS:
+                continue
+            if isinstance(n.func, ast.Attribute) and n.func.attr.startswith("is_") and not n.args and not n.keywords:
+                continue
+            return True
+        if isinstance(n, (ast.Attribute, ast.Subscript)) and isinstance(n.ctx, (ast.Store, ast.Del)):
+            return True
+        if isinstance(n, (ast.Await, ast.Yield, ast.YieldFrom)):
+            return True
+    return False
+
+
+def _node_effect(node, ignore=()):
+    if node.ast is None or node.kind in ("T", "F", "handler", "join", "entry", "exit", "rexit"):
+        return False
+    a = node.ast
+    if node.kind == "for":
+        return _has_effect(a.iter, ignore)
+    if node.kind == "with":
+        return any(_has_effect(it.context_expr, ignore) for it in a.items)
+    if isinstance(a, (ast.FunctionDef, ast.AsyncFunctionDef, ast.ClassDef)):
+        return False
+    return _has_effect(a, ignore)
+
+
+def _truth_named(pm, fi, ref, p):
+    """pm.truth(ref, p), also when the code tests a local that names the condition."""
+    from ..paths import atom_key
+
+    t = pm.truth(ref, p)
+    if t is not None:
+        return t
+    k, pol = atom_key(ref)
+    for n in walk_no_nested(fi.node):
+        if isinstance(n, ast.Assign) and len(n.targets) == 1 and isinstance(n.targets[0], ast.Name):
+            name = n.targets[0].id
+            if len(writes_to_name(fi.node, name)) != 1:
+                continue
+            k2, pol2 = atom_key(_deep_resolve(fi.node, n.value))
+            if k2 != k:
+                continue
+            t = pm.truth(ast.Name(id=name, ctx=ast.Load()), p)
+            if t is not None:
+                atom = t if pol2 else (not t)
+                return atom if pol else (not atom)
+    return None
 
 
 @R.clause("C04.b", "dispatch_message de-duplicates exactly the requests and a hit ends processing")
 def b(ctx):
-    fi = ctx.prog.func(MM + "dispatch_message")
+    # Decided on the path model of dispatch_message (one decision per atomic condition, one value of
+    # message.mtype per path): independent of nesting, `a and b` against nested ifs, early returns, named
+    # conditions and of how the verdict of the filter is tested (is True / == True / truthiness / is False ...).
+    from ..paths import PathModel
+    from ._kit_c04 import branch_normal_form
+
+    fi0 = ctx.prog.func(MM + "dispatch_message")
+    # `dup = filter(m) if c else False`, `dup = c and filter(m)` are brought into the statement-level form first
+    fi = branch_normal_form(fi0)
     m = params(fi)[0]
     cfg = cfg_of(fi)
-    calls = list(find("self._deduplicate_message($x)", fi.node))
+    calls = list(find("self._deduplicate_message($*a)", fi.node))
     ctx.floor("_deduplicate_message call sites", len(calls), 1)
     ctx.ob("exactly one de-duplication site", len(calls) == 1, fi, calls[0][0], detail="%d" % len(calls))
-    call, bnd = calls[0]
+    call = calls[0][0]
     nid = cfg.loc1(call)
-    ctx.ob("the incoming message is what is de-duplicated", isinstance(bnd["x"], ast.Name) and bnd["x"].id == m, fi, call)
-    gs = guard_exprs(cfg, nid)
-    ok = [(e, pol) for e, pol in gs if match("%s.code.is_request()" % m, e) is not None and pol]
-    extra = [(e, pol) for e, pol in gs if not (match("%s.code.is_request()" % m, e) is not None and pol)]
-    ctx.ob("de-duplication is applied to request codes (guard code.is_request())", bool(ok), fi, call, detail="guards: %s" % [stmt_text(e) for e, _ in gs])
-    ctx.ob("every request is de-duplicated (no further condition on the filter)", not extra, fi, call, detail="extra guards: %s" % [stmt_text(e) for e, _ in extra])
-    # a hit returns immediately: find the T pseudo-node of the dedup test (or F of its negation) and require
-    # that no effect call is reachable from it
-    hit_nodes = []
-    for n in cfg.nodes:
-        if n.kind in ("T", "F") and n.ast is not None and contains(n.ast, call):
-            e = n.ast
-            pol = n.kind == "T"
-            if match("self._deduplicate_message($x) is True", e) is not None or match("self._deduplicate_message($x)", e) is not None or match("self._deduplicate_message($x) == True", e) is not None:
-                if pol:
-                    hit_nodes.append(n.id)
-            elif match("self._deduplicate_message($x) is False", e) is not None or match("self._deduplicate_message($x) is not True", e) is not None:
-                if not pol:
-                    hit_nodes.append(n.id)
-    ctx.need(hit_nodes, "the result of _deduplicate_message is not tested in a recognised form (is True / truthiness / is False)")
-    effects = []
-    for c in calls_in(fi.node):
-        cn = call_name(c) or ""
-        if cn.startswith("self._") and cn != "self._deduplicate_message":
-            effects.append(c)
-    ctx.floor("effect calls in dispatch_message", len(effects), 5)
-    for h in hit_nodes:
-        reach = cfg.reach({h})
-        bad = [c for c in effects if set(cfg.locate(c)) & reach]
-        ctx.ob("a duplicate request triggers nothing beyond the filter's own re-send (return on hit)", not bad, fi, bad[0] if bad else call,
-               detail="reachable after a hit: %s" % [call_name(c) for c in bad])
-    # every effect is dominated by the filter call or by not-a-request
-    pr = list(find("self._process_request($x)", fi.node))
+    arg = call.args[0] if len(call.args) == 1 and not call.keywords else None
+    if arg is None and not call.args and len(call.keywords) == 1:
+        arg = call.keywords[0].value
+    arg = _resolve(fi.node, arg) if arg is not None else None
+    ctx.ob("the incoming message is what is de-duplicated", isinstance(arg, ast.Name) and arg.id == m and not writes_to_name(fi.node, m), fi, call)
+    pm = PathModel(fi, subjects={"%s.mtype" % m: ["CON", "NON", "ACK", "RST"]})
+    paths = pm.paths()
+    ctx.floor("normal paths of dispatch_message", len(paths), 4)
+    is_req = ast.parse("%s.code.is_request()" % m, mode="eval").body
+    # the verdict: the call itself when it is tested in place, or the local it is assigned to
+    owner = cfg.nodes[nid].ast
+    verdict = call
+    vname = None
+    if isinstance(owner, ast.Assign) and owner.value is call and len(owner.targets) == 1 and isinstance(owner.targets[0], ast.Name):
+        vname = owner.targets[0].id
+    else:
+        w = [x for x in walk_no_nested(owner) if isinstance(x, ast.NamedExpr) and x.value is call]
+        if w:
+            vname = w[0].target.id
+    if vname is not None:
+        verdict = ast.Name(id=vname, ctx=ast.Load())
+        # the local may be bound on other branches too (`dup = False` where the filter is not consulted, the
+        # result temporary of an expanded helper with early returns): what matters is that between the call and
+        # the end of each path through it nothing else re-binds it
+        others = {x for wr in writes_to_name(fi.node, vname) for x in cfg.locate(wr)} - {nid}
+
+    def cmp(op, const):
+        return ast.Compare(left=verdict, ops=[op], comparators=[ast.Constant(value=const)])
+
+    def hit(p):
+        """True / False: the path is taken on a hit / on a miss; None: the verdict is not consulted on p.
+        _deduplicate_message answers True or False only (C04.c), so `v`, `v is True`, `not (v is False)` agree."""
+        votes = set()
+        for e, flip in ((verdict, False), (cmp(ast.Is(), True), False), (cmp(ast.Is(), False), True)):
+            t = pm.truth(e, p)
+            if t is not None:
+                votes.add((not t) if flip else t)
+        if len(votes) == 1:
+            return votes.pop()
+        return None
+
+    through = [p for p in paths if nid in p.nodes]
+    ctx.need(through, "the de-duplication site lies on no normal path")
+    if vname is not None:
+        ctx.need(not any(x in others for p in through for x in p.nodes[p.index(nid) + 1:]), "the local holding the filter's verdict is re-bound after the call")
+    bad_nonreq = bad_skipped = None
+    for p in paths:
+        rq = _truth_named(pm, fi, is_req, p)
+        if nid in p.nodes:
+            if rq is not True and bad_nonreq is None:
+                bad_nonreq = "on the path [%s] the filter is consulted although code.is_request() is %s" % (pm.describe(p), {None: "not established", False: "false"}[rq])
+        elif rq is True and bad_skipped is None:
+            bad_skipped = "on the path [%s] a request bypasses the filter" % pm.describe(p)
+    ctx.ob("de-duplication is applied to request codes (guard code.is_request())", bad_nonreq is None, fi, call, detail=bad_nonreq)
+    ctx.ob("every request is de-duplicated (no further condition on the filter)", bad_skipped is None, fi, call, detail=bad_skipped)
+    # a hit ends processing: nothing with an effect follows the filter on a path that a hit can take
+    effect_nodes = {n.id for n in cfg.nodes if _node_effect(n, ignore=(call,))}
+    ctx.floor("effect sites in dispatch_message", len(effect_nodes), 2)
+    hits_seen = 0
+    bad = None
+    for p in through:
+        h = hit(p)
+        if h is False:
+            continue
+        hits_seen += 1
+        after = p.nodes[p.index(nid) + 1:]
+        eff = [x for x in after if x in effect_nodes]
+        if eff and bad is None:
+            bad = (cfg.nodes[eff[0]].ast, "on the path [%s] (%s) processing continues with: %s" % (
+                pm.describe(p), "hit" if h else "verdict not consulted", [stmt_text(cfg.nodes[x].ast, 50) for x in eff[:3]]))
+    ctx.need(hits_seen, "no path of dispatch_message corresponds to a hit of the filter")
+    ctx.ob("a duplicate request triggers nothing beyond the filter's own re-send (return on hit)", bad is None, fi, call, detail=bad[1] if bad else None)
+    ctx.need(any(hit(p) is False for p in through), "no path of dispatch_message corresponds to a miss of the filter")
+    # request processing only behind the filter
+    pr = list(find("self._process_request($*a)", fi.node))
     ctx.floor("_process_request call sites", len(pr), 1)
     for c, _ in pr:
-        cn = cfg.loc1(c)
-        # paths on which the code is a request (the F outcomes of code.is_request() are excluded)
-        not_req = {n.id for n in cfg.nodes if n.kind == "F" and match("%s.code.is_request()" % m, n.ast) is not None}
-        passed = not cfg.exists_path(cfg.entry, cn, avoid={nid} | not_req)
-        ctx.ob("request processing is reachable only through the de-duplication filter", passed, fi, c)
+        on = [p for cn in cfg.locate(c) for p in pm.paths_through(cn)]
+        ctx.need(on, "_process_request lies on no normal path")
+        badp = None
+        for p in on:
+            cn = [x for x in cfg.locate(c) if x in p.nodes][0]
+            filtered = nid in p.nodes and p.index(nid) < p.index(cn) and hit(p) is False
+            if not filtered and _truth_named(pm, fi, is_req, p) is not False and badp is None:
+                badp = "on the path [%s] the request is processed without a miss verdict of the filter" % pm.describe(p)
+        ctx.ob("request processing is reachable only through the de-duplication filter", badp is None, fi, c, detail=badp)
+
+
+def _delay_ok(kind, delay, m):
+    """call_later(EXCHANGE_LIFETIME of the message's tuning) or call_at(<loop>.time() + that)"""
+    N = Normalizer()
+    want = Poly.atom("%s.transport_tuning.EXCHANGE_LIFETIME" % m)
+    try:
+        p = N.poly(delay)
+    except norm.NormError:
+        return False
+    if kind == "call_later":
+        return p == want
+    now = [c for c in ast.walk(delay) if isinstance(c, ast.Call) and isinstance(c.func, ast.Attribute) and c.func.attr == "time" and not c.args]
+    for c in now:
+        try:
+            if p == want + N.poly(c):
+                return True
+        except norm.NormError:
+            pass
+    return False
+
+
+def _sim(ctx, fi, m):
+    from ._kit_c04 import EntrySim
+
+    # _send_initially is the send primitive: that it records what it sends (under the same identifier) is C04.d
+    return EntrySim(ctx.prog, fi, FIELD, m, opaque=("_send_initially", "_store_response_for_duplicates"))
 
 
 @R.clause("C04.c", "_deduplicate_message: hits return True and re-send only the stored object for CON; a miss records None, returns False and arms the expiry")
 def c(ctx):
+    # Decided by running the function symbolically (rules/_kit_c04.py) for each state of the entry under
+    # (message.remote, message.mid) -- unknown / known without reply / known with reply -- and each message
+    # type, and inspecting what each run did.  Any spelling of the dictionary accesses (membership, .get with or
+    # without a sentinel default, try/except KeyError, setdefault, pop, del), of the branching and of the expiry
+    # callback (partial, lambda, nested def, bound method, method of self) gives the same runs.  Conditions the
+    # interpreter cannot decide fork the run, so an extra condition on an effect shows as a run lacking it.
+    from ._kit_c04 import ABSENT, NONE, REPLY, KEY
+
     fi = ctx.prog.func(MM + "_deduplicate_message")
-    ctx.ob("_deduplicate_message is atomic (plain def without await/yield)", is_plain_sync(fi), fi, fi.node, construct="def _deduplicate_message")
+    DEF = "def _deduplicate_message"
+    ctx.ob("_deduplicate_message is atomic (plain def without await/yield)", is_plain_sync(fi), fi, fi.node, construct=DEF)
     m = params(fi)[0]
-    cfg = cfg_of(fi)
-    rets = [n for n in walk_no_nested(fi.node) if isinstance(n, ast.Return)]
-    ctx.floor("return statements", len(rets), 2)
-    hit_seen = miss_seen = False
-    for r in rets:
-        nid = cfg.loc1(r)
-        is_hit = guarded_by(cfg, nid, "$k in self._recent_messages", True)
-        is_miss = guarded_by(cfg, nid, "$k in self._recent_messages", False)
-        v = r.value.value if isinstance(r.value, ast.Constant) else "?"
-        if is_hit:
-            hit_seen = True
-            ctx.ob("a known (remote, mid) reports a duplicate (returns True)", v is True, fi, r)
-        elif is_miss:
-            miss_seen = True
-            ctx.ob("an unknown (remote, mid) is not reported as duplicate (returns False)", v is False, fi, r)
+    ctx.need(not writes_to_name(fi.node, m), "the message parameter is re-bound")
+    sim = _sim(ctx, fi, m)
+    runs = sim.run_all()
+    ctx.floor("symbolic runs of _deduplicate_message", len(runs), 12)
+    A = _Agg(ctx, fi)
+    resend_expected = resend_seen = 0
+    n_miss = n_hit = 0
+    for r in runs:
+        w = r.where()
+        miss = r.entry0 == ABSENT
+        if r.kind != "return":
+            A.ob("no path leaves the filter without an explicit verdict", False, fi.node, construct=DEF,
+                 detail="%s: %s" % (w, "falls off the end" if r.kind == "fall" else "raises %s" % r.exc))
+            continue
+        A.ob("no path leaves the filter without an explicit verdict", True, fi.node, construct=DEF)
+        if miss:
+            n_miss += 1
+            A.ob("an unknown (remote, mid) is not reported as duplicate (returns False)", r.value == ("bool", False), r.node, detail=w)
         else:
-            ctx.ob("every return is decided by membership of the key in _recent_messages", False, fi, r)
-    ctx.ob("both outcomes exist", hit_seen and miss_seen, fi, fi.node, construct="def _deduplicate_message")
-    # falling off the end (None) is not True: require no path entry->exit without a return
-    ret_nodes = [cfg.loc1(r) for r in rets]
-    ctx.ob("no path leaves the filter without an explicit verdict", cfg.must_pass(cfg.entry, ret_nodes), fi, fi.node, construct="def _deduplicate_message")
-    # sends
-    sends = [c for c in calls_in(fi.node) if (call_name(c) or "").startswith("self._send") or (call_name(c) or "") in ("self.message_interface.send", "self.send_message")]
-    ctx.floor("re-send sites in _deduplicate_message", len(sends), 1)
-    for s in sends:
-        nid = cfg.loc1(s)
-        arg = s.args[0] if s.args else None
-        stored = arg is not None and match("self._recent_messages[$k]", resolve_local(fi.node, arg)) is not None
-        ctx.ob("the only thing re-sent is the stored reply object itself (byte-identical)", stored and call_name(s) == "self._send_initially", fi, s)
-        ctx.ob("re-send happens only on a hit", guarded_by(cfg, nid, "$k in self._recent_messages", True), fi, s)
-        alive, _ = mtype_values(guard_exprs(cfg, nid), "%s.mtype" % m, ("CON", "NON", "ACK", "RST"))
-        ctx.ob("only duplicates of confirmable requests are re-answered", alive == {"CON"}, fi, s, detail="mtype in %s" % sorted(alive))
-        ctx.ob("nothing is re-sent while no reply has been recorded", guarded_by(cfg, nid, "self._recent_messages[$k] is not None", True) or guarded_by(cfg, nid, "self._recent_messages[$k] is None", False), fi, s)
-    # a CON duplicate with stored reply must be re-answered: exists such a send (liveness of the re-answer)
-    ctx.ob("a duplicate confirmable request is answered with the recorded reply", bool(sends), fi, fi.node, construct="def _deduplicate_message")
-    # miss side: store None + expiry
-    stores = [(k, n) for k, n in stores_to(fi.node, FIELD) if k == "setitem"]
-    ctx.floor("insertions in _deduplicate_message", len(stores), 1)
-    for k, st in stores:
-        nid = cfg.loc1(st)
-        ctx.ob("a new (remote, mid) is recorded with no reply yet (None)", isinstance(st, ast.Assign) and isinstance(st.value, ast.Constant) and st.value.value is None, fi, st)
-        ctx.ob("recording happens only on a miss", guarded_by(cfg, nid, "$k in self._recent_messages", False), fi, st)
-    miss_false = [cfg.loc1(r) for r in rets if guarded_by(cfg, cfg.loc1(r), "$k in self._recent_messages", False)]
-    store_nodes = [cfg.loc1(st) for _, st in stores]
-    for mr in miss_false:
-        ctx.ob("every miss path records the identifier before returning", any(cfg.dominates(s, mr) for s in store_nodes), fi, cfg.nodes[mr].ast)
-    timers = list(find("self.loop.call_later($d, $cb, $*rest)", fi.node))
-    ctx.floor("expiry timers", len(timers), 1)
-    N = Normalizer(env=norm.local_env(fi.node))
-    for call, bnd in timers:
-        nid = cfg.loc1(call)
-        ctx.ob("identifier lifetime is EXCHANGE_LIFETIME of the message's transport tuning", N.poly(bnd["d"]) == Poly.atom("%s.transport_tuning.EXCHANGE_LIFETIME" % m), fi, call, detail="delay = %s" % ast.unparse(bnd["d"]))
-        cb = bnd["cb"]
-        pb = match("functools.partial(self._recent_messages.pop, $k, $*r)", cb)
-        if pb is None and match("self._recent_messages.pop", cb) is not None and bnd["rest"]:
-            pb = {"k": bnd["rest"][0]}
-        if pb is None and isinstance(cb, ast.Lambda):
-            x = match("self._recent_messages.pop($k, $*r)", cb.body)
-            if x:
-                pb = x
-        ctx.ob("the expiry forgets exactly the recorded identifier", pb is not None and _key_ok(fi, pb["k"], m), fi, call)
-        ctx.ob("the expiry is armed only for new identifiers", guarded_by(cfg, nid, "$k in self._recent_messages", False), fi, call)
-    for mr in miss_false:
-        tn = [cfg.loc1(c) for c, _ in timers]
-        ctx.ob("every miss path arms the expiry", any(cfg.dominates(t, mr) for t in tn), fi, cfg.nodes[mr].ast)
+            n_hit += 1
+            A.ob("a known (remote, mid) reports a duplicate (returns True)", r.value == ("bool", True), r.node, detail=w)
+        for ev in r.events("foreignkey"):
+            A.ob("the filter addresses the table by the identifier of the message only", False, ev[1], detail=w)
+        for ev in r.events("tableop"):
+            A.ob("the filter changes nothing in the table but the entry of the message", False, ev[2], detail="%s: .%s()" % (w, ev[1]))
+        for ev in r.events("remove"):
+            A.ob("only the expiry forgets an identifier", False, ev[1], detail=w)
+        inserts = r.events("insert")
+        timers = r.events("timer")
+        for ev in inserts:
+            if miss:
+                A.ob("a new (remote, mid) is recorded with no reply yet (None)", ev[1] == NONE, ev[2], detail=w)
+            A.ob("recording happens only on a miss", miss, ev[2], detail=w)
+        for ev in timers:
+            _k, call, kind, delay, removal = ev
+            if miss:
+                A.ob("identifier lifetime is EXCHANGE_LIFETIME of the message's transport tuning", _delay_ok(kind, delay, m), call,
+                     detail="%s: delay = %s" % (w, ast.unparse(delay)))
+                ctx.need(removal is not None, "the expiry callback `%s` cannot be interpreted (%s)" % (stmt_text(call.args[1], 60), "; ".join(sim.uninterpreted) or "unknown callable"))
+                # exactly one removal, of the key, nothing else; a default (pop(key, None)) does not matter
+                ok = len(removal) == 1 and removal[0][0] == "remove"
+                A.ob("the expiry forgets exactly the recorded identifier", ok, call, detail="%s: callback does %s" % (w, [e[0] for e in removal]))
+            A.ob("the expiry is armed only for new identifiers", miss, call, detail=w)
+        if miss:
+            A.ob("every miss path records the identifier before returning", len(inserts) >= 1 and r.entry == NONE, r.node,
+                 detail="%s: %d insertion(s), entry finally %s" % (w, len(inserts), r.entry[0]))
+            A.ob("every miss path arms the expiry", len(timers) >= 1, r.node, detail=w)
+        elif r.entry != r.entry0:
+            A.ob("a duplicate leaves the recorded state as it is", False, r.node, detail="%s: entry finally %s" % (w, r.entry[0]))
+        # outputs
+        expected = r.entry0 == REPLY and r.mtype == "CON"
+        resends = 0
+        for ev in r.events("call"):
+            _k, name, args, call = ev
+            is_resend = name == "self._send_initially" and len(args) >= 1 and args[0] == REPLY
+            A.ob("the only thing re-sent is the stored reply object itself (byte-identical)", is_resend or r.entry0 != REPLY, call,
+                 detail="%s: %s" % (w, stmt_text(call, 60)))
+            A.ob("re-send happens only on a hit", not miss, call, detail=w)
+            if not miss:
+                A.ob("only duplicates of confirmable requests are re-answered", r.mtype == "CON", call, detail="mtype %s" % r.mtype)
+                A.ob("nothing is re-sent while no reply has been recorded", r.entry0 == REPLY, call, detail=w)
+            resends += bool(is_resend)
+        for ev in r.events("store"):
+            A.ob("the filter has no effect beyond the table, the expiry and the re-send", False, ev[1], detail=w)
+        if expected:
+            resend_expected += 1
+            resend_seen += resends == 1
+            A.ob("a duplicate confirmable request is answered with the recorded reply", resends == 1, fi.node, construct=DEF,
+                 detail="%s: %d re-send(s)" % (w, resends))
+    A.flush()
+    ctx.need(n_miss and n_hit and resend_expected, "the symbolic runs do not cover miss, hit and re-answer")
+    ctx.ob("both outcomes exist", n_miss > 0 and n_hit > 0, fi, fi.node, construct=DEF)
+
+
+_STORE = MM + "_store_response_for_duplicates"
+_TX = ("self._send_via_transport", "self.message_interface.send")
+
+
+def _recorder(prog):
+    """The recording step: _store_response_for_duplicates -- or _send_initially itself when the three-line
+    function has been folded into its only caller (then the interpreter runs on _send_initially)."""
+    if prog.has_func(_STORE):
+        return prog.func(_STORE), False
+    return prog.func(MM + "_send_initially"), True
 
 
 @R.clause("C04.d", "the reply is recorded for duplicates before it is transmitted, and only for known identifiers")
 def d(ctx):
+    from ..paths import PathModel
+    from ._kit_c04 import ABSENT
+
     fi = ctx.prog.func(MM + "_send_initially")
     m = params(fi)[0]
-    cfg = cfg_of(fi)
-    st = list(find("self._store_response_for_duplicates($x)", fi.node))
-    tx = list(find("self._send_via_transport($x)", fi.node))
-    ctx.floor("_send_via_transport call", len(tx), 1)
-    for t, tb in tx:
-        tn = cfg.loc1(t)
-        ok = any(cfg.dominates(cfg.loc1(s), tn) and isinstance(sb["x"], ast.Name) and sb["x"].id == m and same(sb["x"], tb["x"]) for s, sb in st)
-        ctx.ob("every transmission is preceded by recording the same message as possible reply to duplicates", ok and not writes_to_name(fi.node, m), fi, t)
-    for s, sb in st:
-        sn = cfg.loc1(s)
-        gs = guard_exprs(cfg, sn)
-        ctx.ob("recording is unconditional", not gs, fi, s, detail="guards: %s" % [stmt_text(e) for e, _ in gs])
-    sf = ctx.prog.func(MM + "_store_response_for_duplicates")
+    sf, folded = _recorder(ctx.prog)
+    if not folded:
+        cfg = cfg_of(fi)
+        st = list(find("self._store_response_for_duplicates($x)", fi.node))
+        tx = [x for pat_ in _TX for x in find(pat_ + "($x)", fi.node)]
+        ctx.floor("transmission site in _send_initially", len(tx), 1)
+
+        def is_m(e):
+            e = _resolve(fi.node, e)
+            return isinstance(e, ast.Name) and e.id == m
+
+        rebound = bool(writes_to_name(fi.node, m))
+        # on every normal path through the transmission, the message was recorded before (path model: indifferent
+        # to guard clauses / nesting around either call; a condition on the recording shows as a path without it)
+        pm = PathModel(fi, subjects={"%s.mtype" % m: ["CON", "NON", "ACK", "RST"]})
+        st_nodes = {x for s, sb in st if is_m(sb["x"]) for x in cfg.locate(s)}
+        for t, tb in tx:
+            bad = None
+            on = [(p, tn) for tn in cfg.locate(t) for p in pm.paths_through(tn)]
+            ctx.need(on, "the transmission lies on no normal path of _send_initially")
+            for p, tn in on:
+                before = p.nodes[: p.index(tn)]
+                if not any(x in st_nodes for x in before) and bad is None:
+                    bad = "on the path [%s] nothing is recorded before the transmission" % pm.describe(p)
+            ctx.ob("every transmission is preceded by recording the same message as possible reply to duplicates", bad is None and is_m(tb["x"]) and not rebound, fi, t, detail=bad)
+        for s, sb in st:
+            ctx.ob("what is handed to the recording step is the message being sent", is_m(sb["x"]) and not rebound, fi, s)
+    # the recording step, run symbolically for each state of the entry
     sm = params(sf)[0]
-    scfg = cfg_of(sf)
-    writes = [(k, n) for k, n in stores_to(sf.node, FIELD)]
-    ctx.floor("writes in _store_response_for_duplicates", len(writes), 1)
-    for k, n in writes:
-        nid = scfg.loc1(n)
-        ctx.ob("a reply is recorded only under an identifier that is already known (no entry without expiry)", k == "setitem" and guarded_by(scfg, nid, "$k in self._recent_messages", True), sf, n)
-        ctx.ob("what is recorded is the message being sent", isinstance(n, ast.Assign) and isinstance(n.value, ast.Name) and n.value.id == sm and not writes_to_name(sf.node, sm), sf, n)
-        gs = [e for e, pol in guard_exprs(scfg, nid) if match("$k in self._recent_messages", e) is None and match("$k not in self._recent_messages", e) is None]
-        ctx.ob("no further condition prevents recording the reply", not gs, sf, n, detail="%s" % [stmt_text(e) for e in gs])
+    ctx.need(not writes_to_name(sf.node, sm), "the message parameter of %s is re-bound" % sf.name)
+    DEF = "def %s" % sf.name
+    sim = _sim(ctx, sf, sm)
+    runs = sim.run_all()
+    ctx.floor("symbolic runs of %s" % sf.name, len(runs), 12)
+    A = _Agg(ctx, sf)
+    n_ins = n_tx = 0
+    for r in runs:
+        w = r.where()
+        known = r.entry0 != ABSENT
+        if r.kind == "raise":
+            A.ob("the recording step completes", False, sf.node, construct=DEF, detail="%s: raises %s" % (w, r.exc))
+            continue
+        inserts = r.events("insert")
+        for ev in inserts:
+            n_ins += 1
+            A.ob("a reply is recorded only under an identifier that is already known (no entry without expiry)", known, ev[2], detail=w)
+            A.ob("what is recorded is the message being sent", ev[1] == ("param", sm), ev[2], detail=w)
+        if known:
+            anchor = inserts[0][2] if inserts else sf.node
+            A.ob("no further condition prevents recording the reply", len(inserts) >= 1 and r.entry == ("param", sm), anchor,
+                 construct=None if inserts else DEF, detail="%s: %d insertion(s)" % (w, len(inserts)))
+        else:
+            A.ob("a reply is recorded only under an identifier that is already known (no entry without expiry)", r.entry == ABSENT, sf.node, construct=DEF, detail=w)
+        for ev in r.events("foreignkey"):
+            A.ob("the recording step addresses the table by the identifier of the message only", False, ev[1], detail=w)
+        for ev in r.events("remove"):
+            A.ob("the recording step never forgets an identifier", False, ev[1], detail=w)
+        for ev in r.events("tableop"):
+            A.ob("the recording step changes nothing in the table but the entry of the message", False, ev[2], detail=w)
+        for ev in r.events("timer"):
+            A.ob("the recording step arms no expiry of its own", False, ev[1], detail=w)
+        if folded:
+            for i, ev in enumerate(r.trace):
+                if ev[0] == "call" and ev[1] in _TX:
+                    n_tx += 1
+                    recorded = any(x[0] == "insert" and x[1] == ("param", sm) for x in r.trace[:i])
+                    A.ob("every transmission is preceded by recording the same message as possible reply to duplicates",
+                         (recorded or not known) and len(ev[2]) >= 1 and ev[2][0] == ("param", sm), ev[3], detail=w)
+    A.flush()
+    ctx.floor("insertions in %s" % sf.name, n_ins, 1)
+    if folded:
+        ctx.floor("transmissions in the symbolic runs of _send_initially", n_tx, 12)
+
+
+def _references(prog, name):
+    """(number of references to attribute / name `name` in the package, {function short name: count})"""
+    total = 0
+    per = {}
+    for mod in prog.modules.values():
+        for n in ast.walk(mod.tree):
+            if (isinstance(n, ast.Attribute) and n.attr == name) or (isinstance(n, ast.Name) and n.id == name and isinstance(n.ctx, ast.Load)):
+                total += 1
+    for f in prog.funcs.values():
+        if f.parent is not None:
+            continue
+        k = 0
+        for n in ast.walk(f.node):
+            if (isinstance(n, ast.Attribute) and n.attr == name) or (isinstance(n, ast.Name) and n.id == name and isinstance(n.ctx, ast.Load)):
+                k += 1
+        if k:
+            per[f.short] = k
+    return total, per
+
+
+def _writers(prog, field):
+    """{function: [(kind, node)]}: the engine's field_writers, united with an alias-aware scan that also enters
+    lambdas (which are not functions of their own in the program index) and nested defs."""
+    from ._kit_c04 import table_writes
+
+    res = {}
+    seen = set()
+    for fn, hits in field_writers(prog, field).items():
+        for kind, node in hits:
+            seen.add(id(node))
+            res.setdefault(fn, []).append((kind, node))
+    for f in prog.funcs.values():
+        if f.parent is not None:
+            continue
+        for kind, node in table_writes(f.node, field):
+            # attributed to the enclosing top-level function; what the engine's scan found keeps its owner
+            if id(node) in seen or _stmt_seen(f.node, node, seen):
+                continue
+            seen.add(id(node))
+            res.setdefault(f.short, []).append((kind, node))
+    return res
+
+
+def _stmt_seen(root, node, seen):
+    """Is `node` part of a statement the engine's scan has reported already?"""
+    for st in ast.walk(root):
+        if isinstance(st, ast.stmt) and id(st) in seen and any(x is node for x in ast.walk(st)):
+            return True
+    return False
 
 
 @R.clause("C04.e", "only the two de-duplication functions (and the scheduled expiry) write _recent_messages")
 def e(ctx):
-    allowed = {"messagemanager.MessageManager.__init__", "messagemanager.MessageManager._deduplicate_message", "messagemanager.MessageManager._store_response_for_duplicates"}
-    w = field_writers(ctx.prog, "_recent_messages")
+    allowed = {"messagemanager.MessageManager.__init__", "messagemanager.MessageManager._deduplicate_message", _recorder(ctx.prog)[0].short}
+    w = _writers(ctx.prog, "_recent_messages")
     n = sum(len(v) for v in w.values())
-    ctx.floor("write sites of _recent_messages in the package", n, 4)
+    ctx.floor("write sites of _recent_messages in the package", n, 3)
+    ctx.need(allowed <= set(w), "the writer scan does not find the writes of %s" % sorted(x.split(".")[-1] for x in allowed - set(w)))
+    # The scheduled expiry may be a method of its own (call_later(t, self._forget, key)): it is accepted when the
+    # symbolic run of _deduplicate_message identifies it as the expiry callback (C04.c checks that it removes
+    # exactly the key) and nothing else in the package refers to it.  Likewise a helper that is referred to by the
+    # de-duplication functions only is part of them (C04.c/C04.d interpret it or refuse).
+    part_of = {}
+    foreign = [fn for fn in w if fn not in allowed]
+    if foreign:
+        for fn in foreign:
+            f = ctx.prog.funcs["aiocoap." + fn]
+            if f.parent is not None:
+                # a nested def of an allowed function belongs to it
+                top = f
+                while top.parent is not None:
+                    top = top.parent
+                if top.short in allowed:
+                    part_of[fn] = top.short
+                continue
+            total, per = _references(ctx.prog, f.name)
+            users = set(per) - {fn}
+            inside = sum(per.get(u, 0) for u in users)
+            if total and total == inside and users <= (allowed - {"messagemanager.MessageManager.__init__"}):
+                part_of[fn] = "/".join(sorted(u.split(".")[-1] for u in users))
     for fn, hits in sorted(w.items()):
         for kind, node in hits:
             fi = ctx.prog.funcs["aiocoap." + fn]
-            ctx.ob("writer of _recent_messages is one of the de-duplication functions", fn in allowed, fi, node, detail="%s in %s" % (kind, fn))
+            ok = fn in allowed or fn in part_of
+            ctx.ob("writer of _recent_messages is one of the de-duplication functions", ok, fi, node,
+                   detail="%s in %s%s" % (kind, fn, (" (used by %s only)" % part_of[fn]) if fn in part_of else ""))
     # positive control for the zero-instance side of the rule
     ctl = ast.parse("def f(self):\n    self._recent_messages.clear()\n").body[0]
     ctx.need(len(stores_to_any(ctl, "_recent_messages")) == 1, "positive control for the writer scan failed")
@@ -256,5 +673,14 @@ R.seed("C04.c", F_MM, "            if message.mtype is CON:\n                if 
 R.seed("C04.d", F_MM, "        self._store_response_for_duplicates(message)\n\n        self._send_via_transport(message)", "        self._send_via_transport(message)", "reply never recorded")
 R.seed("C04.d", F_MM, "        if key in self._recent_messages:\n            self._recent_messages[key] = message", "        if True:\n            self._recent_messages[key] = message", "entries without expiry")
 R.seed("C04.e", F_MM, "        self.log.debug(\"Exchange removed, message ID: %d.\", message.mid)\n", "        self.log.debug(\"Exchange removed, message ID: %d.\", message.mid)\n        self._recent_messages.pop(key, None)\n", "foreign writer forgets the identifier early")
+
+# seeds for the generalised (interpreted) forms of the clauses
+R.seed("C04.b", F_MM, "            if self._deduplicate_message(message) is True:\n                return\n", "            if self._deduplicate_message(message) is False:\n                return\n", "verdict inverted: duplicates are processed, new requests dropped")
+R.seed("C04.c", F_MM, "            self._recent_messages[key] = None\n            return False", "            if message.mtype is CON:\n                self._recent_messages[key] = None\n            return False", "NON requests are never remembered")
+R.seed("C04.c", F_MM, "                functools.partial(self._recent_messages.pop, key),", "                lambda: self._recent_messages.pop(message.mid),", "expiry as a lambda that pops another key")
+R.seed("C04.c", F_MM, "                    self._send_initially(self._recent_messages[key])", "                    self._send_initially(self._recent_messages.pop(key))", "the reply is forgotten with the first re-answer")
+R.seed("C04.c", F_MM, "        if key in self._recent_messages:\n            if message.mtype is CON:", "        if self._recent_messages.get(key) is not None:\n            if message.mtype is CON:", "an identifier without reply yet counts as new: executed twice")
+R.seed("C04.d", F_MM, "        if key in self._recent_messages:\n            self._recent_messages[key] = message", "        if key not in self._recent_messages:\n            self._recent_messages[key] = message", "membership test inverted")
+R.seed("C04.e", F_MM, "        self.log.debug(\"Exchange removed, message ID: %d.\", message.mid)\n", "        self.log.debug(\"Exchange removed, message ID: %d.\", message.mid)\n        self.loop.call_soon(lambda: self._recent_messages.pop(key, None))\n", "foreign writer hidden in a lambda")
 
 R.seed("C04.f", "aiocoap/numbers/constants.py", "        return self.ACK_TIMEOUT\n", "        return self.EMPTY_ACK_DELAY\n", "PROCESSING_DELAY 0.1 s: EXCHANGE_LIFETIME shrinks to 245.1 s")
